@@ -43,11 +43,12 @@ func runCrashWorkload(c *CaseCtx, o crashOpts) {
 	if o.ImgCap > 0 {
 		cr.MaxImg = o.ImgCap
 	}
+	cr.ContinueMax = tier(c.Tier, 10, 25)
 	cr.Mon.Install()
 	defer cr.Mon.Uninstall()
 	c.Log("cfg %s buckets=%v power=%v", cfg, u.Buckets, o.Power)
 
-	cr.PushState(obsModel(run.M, u))
+	cr.PushModel(run.M, u)
 	cr.SetStep(0, false, "open")
 	if !run.Open() {
 		return
@@ -58,7 +59,7 @@ func runCrashWorkload(c *CaseCtx, o crashOpts) {
 		cur := len(cr.States) - 1
 		cr.SetStep(cur, true, "tx")
 		run.Tx(t, expectFail)
-		cr.PushState(obsModel(run.M, u))
+		cr.PushModel(run.M, u)
 		cr.SetStep(cur+1, false, "idle")
 	}
 	for i := 0; i < o.NTx && !run.Dead && !c.Violated(); i++ {
